@@ -93,12 +93,14 @@ def _model_job(job):
 
 
 def model(v, tier):
+    t0 = time.time()
     cfgs = QUICK if tier == "quick" else THOROUGH
     jobs = [("base", c, None, None) for c in cfgs] + [("base", PINNED, None, None)] + \
            [("mut", c, m, mode) for m, c, mode in (MUTANTS if tier == "quick" else MUTANTS + MUTANTS_T)] + \
            ([("mut", "Cancel_caw_fd_t.cfg", "strict", "strict")] if tier != "quick" else [])
     with ThreadPoolExecutor(max_workers=6) as ex:
         results = list(ex.map(_model_job, jobs))
+    v.notes["model_checking_wall_s"] = round(time.time() - t0, 1)
     for (kind, cfg, mut, mode), r in results:
         if kind == "base" and cfg != PINNED:
             v.add_model(cfg, r)
@@ -194,14 +196,31 @@ def _run_job(job):
     if os.path.exists(tr):
         os.unlink(tr)
     rc, out, err = sh([drv, tr, str(s), str(perturb), str(nexec), hex(kinds), hex(modes), str(steer)], timeout=900)
-    res = {"job": job, "rc": rc, "err": err, "trace": tr, "reject": None, "tlc": None}
-    if rc == 0:
-        res["tlc"], res["reject"] = _validate(tr, str(i))
-    return res
+    return {"job": job, "rc": rc, "err": err, "trace": tr}
+
+
+def _validate_batch(batch):
+    """One TLC start for several recorded runs (executions are Reset-delimited and independent; the thread-id space is
+    the largest of the runs).  Only if the batch is rejected are its runs validated one by one."""
+    bi, items = batch
+    if len(items) == 1:
+        r, rej = _validate(items[0]["trace"], "b%d" % bi)
+        return [(items[0], r, rej)]
+    comb = os.path.join(rundir(PROP), "cancel_batch_%d.ndjson" % bi)
+    with open(comb, "w") as f:
+        for it in items:
+            f.write(open(it["trace"]).read())
+    nt = max(count_threads(it["trace"]) for it in items)
+    r = validate_trace(TSPEC, TCFG, comb, nthreads=nt, timeout=1800, metaname="c16trB_%d.%d" % (bi, os.getpid()))
+    if r.accepted:
+        return [(it, r if k == 0 else None, None) for k, it in enumerate(items)]
+    return [(it,) + _validate(it["trace"], "b%d_%d" % (bi, k)) for k, it in enumerate(items)]
 
 
 def traces(v, tier, seed):
+    t0 = time.time()
     drv = build_driver("drv_cancel")
+    v.notes["phase_wall_s"] = {"build": round(time.time() - t0, 1)}
     runs = 6 if tier == "quick" else 36
     nexec = 40 if tier == "quick" else 70
     jobs = []
@@ -217,6 +236,7 @@ def traces(v, tier, seed):
     stats = collections.Counter()
     pending = list(jobs)
     extra = 0
+    good = []
     with ThreadPoolExecutor(max_workers=4) as ex:
         while pending:
             results = list(ex.map(_run_job, pending))
@@ -250,31 +270,42 @@ def traces(v, tier, seed):
                     continue
                 if rc != 0:
                     raise Broken("driver failed rc=%d: %s" % (rc, err[-1000:]))
-                if res["reject"]:
-                    p = save_replay(PROP, "rejected_seed%d.ndjson" % s, src=res["tlc"].trace_with_header)
-                    v.violation("%s (driver seed %d)" % (res["reject"], s), p)
+                good.append(res)
+        v.notes["phase_wall_s"]["real_executions"] = round(time.time() - t0 - v.notes["phase_wall_s"]["build"], 1)
+        # ---- code -> spec: every recorded execution against Cancel.tla (CancelTrace.tla) ----
+        per = 8 if tier == "quick" else 7
+        batches = [(bi, good[k:k + per]) for bi, k in enumerate(range(0, len(good), per))]
+        for triples in ex.map(_validate_batch, batches):
+            for res, r, rej in triples:
+                drv_, i, s, perturb, nexec_, kinds, modes, steer = res["job"]
+                tr, err = res["trace"], res["err"]
+                if rej:
+                    p = save_replay(PROP, "rejected_seed%d.ndjson" % s, src=r.trace_with_header)
+                    v.violation("%s (driver seed %d)" % (rej, s), p)
                     continue
-                r = res["tlc"]
-                nx = 0
+                nx = nrec = 0
                 for rec in trace_lines(tr):
+                    nrec += 1
                     if rec.get("e") == "Reset":
                         nx += 1
                         cover[(rec["kl"], rec["mode"])] += 1
                 v.traces += nx
-                v.states += r.distinct
-                v.transitions += r.generated
                 stats["driver_runs"] += 1
-                stats["records_validated"] += (r.tracelen or 0)
+                stats["records_validated"] += nrec
+                if r is not None:
+                    v.states += r.distinct
+                    v.transitions += r.generated
+                    m = re.search(r'<<"DRIFT", (\d+)>>', r.out)
+                    if m and int(m.group(1)):
+                        stats["drift_records"] += int(m.group(1))
                 for k in ("late_after_foreign_cancel", "late_after_caw", "handler_running_at_caw_ret", "steered_hangup", "steered_late"):
                     stats[k] += _stat(err, k)
-                m = re.search(r'<<"DRIFT", (\d+)>>', r.out)
-                if m and int(m.group(1)):
-                    stats["drift_records"] += int(m.group(1))
                 if len(v.samples) < 3:
                     lines = open(tr).read().splitlines()
                     k0 = next((j for j, x in enumerate(lines) if '"e":"CancelCall"' in x), 0)
-                    v.samples.append({"trace": os.path.basename(tr), "records": r.tracelen,
+                    v.samples.append({"trace": os.path.basename(tr), "records": nrec,
                                       "excerpt": [x[:200] for x in lines[max(0, k0 - 2):k0 + 8]]})
+    v.notes["phase_wall_s"]["trace_validation"] = round(time.time() - t0 - v.notes["phase_wall_s"]["build"] - v.notes["phase_wall_s"]["real_executions"], 1)
     if stats["drift_records"]:
         v.drift.append("%d dq_atomic_flags modifications came from functions CancelTrace.tla does not know (explained by a "
                        "known word operator)" % stats["drift_records"])
@@ -322,6 +353,7 @@ def run(tier, seed):
 
 
 def replay(path, seed):
+    path = os.path.abspath(path)
     if path.endswith(".out"):
         print(open(path).read()[-6000:])
         return 1
@@ -330,7 +362,13 @@ def replay(path, seed):
         r = tlc(TSPEC, TCFG, workers=1, env={"TRACE": path}, dfs=True)
     else:
         r = validate_trace(TSPEC, TCFG, path, nthreads=count_threads(path))
-    print(r.out[-3000:])
+    print(r.out[-1500:])
+    if not r.accepted:
+        lines = body.splitlines()
+        k = (r.maxl or 1) - (0 if '"Header"' in lines[0] else 1)
+        print("first record no transition of Cancel.tla explains (#%d) and its predecessors:" % k)
+        for x in lines[max(0, k - 6):k]:
+            print("  " + x[:260])
     for line in body.splitlines():
         if '"OracleFail"' in line or '"Crash"' in line or '"Hang"' in line:
             print(line)
